@@ -29,7 +29,7 @@ func (s TxSpec) fee() sdk.Coins {
 	if s.FeeRaw != nil {
 		return s.FeeRaw
 	}
-	if s.Fee == 0 {
+	if s.Fee <= 0 {
 		return sdk.Coins{}
 	}
 	return coins(s.Fee)
